@@ -22,7 +22,10 @@ type Choices struct {
 	Keep    bool
 	Limit   int // max draws per run (0 = default); exceeding it sets Overrun and returns zeros
 	Overrun bool
-	Sink    interface{ Write([]byte) (int, error) } // replay-by-seed of a run that kills its process: every draw is written out at once
+	// Sink: replay-by-seed of a run that kills its process. Every draw is stored at once into a
+	// shared file mapping (plain memory stores: no system call and no synchronisation event that could
+	// perturb the race detector); the first 8 bytes hold the number of draws.
+	Sink []byte
 }
 
 const defaultDrawLimit = 2_000_000
@@ -80,11 +83,13 @@ func (c *Choices) Intn(bound int, label string) int {
 	}
 	c.Trace = append(c.Trace, v)
 	if c.Sink != nil {
-		var b [8]byte
-		for i := 0; i < 8; i++ {
-			b[i] = byte(v >> (8 * uint(i)))
+		n := len(c.Trace)
+		if off := 8 * n; off+8 <= len(c.Sink) {
+			for i := 0; i < 8; i++ {
+				c.Sink[off+i] = byte(v >> (8 * uint(i)))
+				c.Sink[i] = byte(uint64(n) >> (8 * uint(i)))
+			}
 		}
-		c.Sink.Write(b[:])
 	}
 	if c.Keep {
 		c.Labels = append(c.Labels, label)
